@@ -653,6 +653,22 @@ func (r *rwRT) ruleComments() {
 					continue
 				}
 				sorted++
+				// the list that is sorted is the one that is installed — unless what is installed is a single
+				// collected list (in traversal order, which is source order), not a concatenation
+				if !sameAV(unwrap(e.Args[0]), unwrap(v)) {
+					spreads, elems := 0, 0
+					if sv, ok := unwrap(v).(SliceV); ok {
+						elems = len(sv.Elems)
+						for _, el := range sv.Elems {
+							if _, sp := el.(Spread); sp {
+								spreads++
+							}
+						}
+					}
+					if spreads >= 1 && elems >= 2 {
+						orderBad = "the list that is installed is a concatenation (the collected doc comments followed by another list) and is not the list the sort was applied to: the attached source comments follow all doc comments instead of standing at their positions"
+					}
+				}
 				for _, lo := range in.Apply(o.St, less, []AV{Sym{Name: "i"}, Sym{Name: "j"}}) {
 					if lo.Panicked || len(lo.Ret) != 1 {
 						continue
